@@ -84,6 +84,15 @@ CLAIMED = {
         "technique": "machine-checked proof in Rocq (Coq 8.16) of the path-normalisation and link-resolution lemmas + direct file-system oracle and model correspondence",
         "design": "DESIGN.md §7 C12",
     },
+    "C14": {
+        "text": "PARTIAL by nature. Rocq theorems over the filter logic on path components: C14_root (no directory at or below users/ is kept by the system generator) and C14_user (the user "
+                "generator keeps exactly users/, users/<non-numeric first component>/... and users/<own uid>/..., for every path and uid -- an equivalence with the independent Spec/Allowed.v), "
+                "C14_pinned_refuted. The real traversal (walkdir, symlinks, permissions, the XDG and system-wide directories) is exercised end to end: random trees staged in a private mount namespace "
+                "(tmpfs over /etc, /run, /usr/share), the real binary run as root and as several UIDs with --dry-run, marker units per directory; plus a site inventory of get_root_dirs/get_rootless_dirs.",
+        "note": "Trusted: Coq kernel; Spec/Allowed.v; 'reads' is taken as 'uses as a search directory' (walkdir still lists users/ while walking); needs root + unshare + setpriv (the check reports unavailability as a broken tie).",
+        "technique": "machine-checked proof in Rocq (Coq 8.16) of the directory filters + end-to-end oracle in a mount namespace + site inventory",
+        "design": "DESIGN.md §7 C14",
+    },
     "C15": {
         "text": "Rocq theorems over the unit model: C15_list (list look-up = history after its last empty assignment, with C15_effective_is_suffix characterising that suffix "
                 "declaratively), C15_last (single-valued look-up = last effective assignment, none after an empty last one), C15_kv (name=value look-up = last value per name among the "
